@@ -17,9 +17,26 @@ open NunavutVerif.Tpl NunavutVerif.ProcState NunavutVerif.LineBuffer NunavutVeri
 
 /-! ### T2 for the process-state classes: the generated tables -/
 
-/-- In all four languages no leaf reads sibling types, and every use of the unique-name generator, of a memoised
-function or of the template lookup cache is covered by its sanitiser (T4, T5 below). -/
-theorem C10_tables_clean : TplFlows.langs.all (fun L => L.cleanFor Src.c10) = true := by decide +kernel
+/- Full statement (FALSE for the code as it is):
+     theorem C10_tables_clean : TplFlows.langs.all (fun L => L.cleanFor Src.c10) = true
+   py: `filter_pickle` serialises the PyDSDL model objects *including the lazily filled caches inside them* (the
+   `BitLengthSet` operators memoise `% n` and expansions); the model objects of nested types are shared between the
+   types of a run, so the fill state — and with it the `_MODEL_` literal of a generated module — depends on which types
+   were processed before (known finding `py-pickled-model-cache-state`).  Proved: everything except that one cell
+   (language py × per-type files × model-cache state). -/
+
+/-- In c, cpp and html no leaf reads sibling types, and every use of the unique-name generator, of a memoised
+function or of the template lookup cache is covered by its sanitiser (T4, T5 below); in py the same holds for every
+class except the model-cache state in per-type files. -/
+theorem C10_tables_clean_partial :
+    TplFlowsC.lang.cleanFor Src.c10 = true ∧ TplFlowsCpp.lang.cleanFor Src.c10 = true ∧
+    TplFlowsHtml.lang.cleanFor Src.c10 = true ∧
+    TplFlowsPy.lang.cleanFor [.siblings, .psUniqueName, .psMemo, .psTemplateCache] = true ∧
+    TplFlowsPy.lang.rootsCleanFor Src.c10 .namespace = true ∧
+    TplFlowsPy.lang.rootsCleanFor Src.c10 .support = true := by decide +kernel
+
+/-- The excluded cell really is dirty in the table (the model describes the code as it is). -/
+example : TplFlowsPy.lang.rootsCleanFor [.psModelCache] .type = false := by decide +kernel
 
 /-- The sanitiser of the unique-name leaves exists in the source: `_generate_code` calls
 `UniqueNameGenerator.reset()` before it consumes the template generator. -/
